@@ -253,6 +253,7 @@ class Exchange:
         self.next_id = 300000000000
         self.calls = []  # (method, customerRef, n instructions)
         self.ocm = deque()  # pending order-stream messages (JSON strings)
+        self.ocm_ready = deque()  # scheduler step from which the message at the same position may be delivered
         self.clk = 0
         self.last_ocm = None
         self.suspended = False
@@ -294,6 +295,8 @@ class Exchange:
             msg["ct"] = ct
             msg["initialClk"] = "i%d" % self.clk
         self.ocm.append(json.dumps(msg))
+        # order-stream latency (scenario knob stream_lag_steps): the message becomes deliverable only some scheduler steps later
+        self.ocm_ready.append(getattr(self.sim, "step", 0) + int(self.sim.scenario.get("stream_lag_steps", 0)))
 
     def _uo(self, b):
         d = {
@@ -958,7 +961,7 @@ class LiveRun:
         for t in self.tasks:
             if t.state != "done":
                 ch.append(("task", t))
-        if self.exchange.ocm:
+        if self.exchange.ocm and (not self.exchange.ocm_ready or self.exchange.ocm_ready[0] <= self.step or self.draining or not ch):
             ch.append(("ocm",))
         if self.bdq.poll:
             ch.append(("bdq",))
@@ -1027,6 +1030,8 @@ class LiveRun:
             if kind == "task":
                 self.resume(c[1])
             elif kind == "ocm":
+                if self.exchange.ocm_ready:
+                    self.exchange.ocm_ready.popleft()
                 self._deliver_ocm(self.exchange.ocm.popleft())
             elif kind == "bdq":
                 batch = self.bdq.poll.popleft()
@@ -1342,11 +1347,14 @@ class LiveRun:
                     _dispatch("restart", self.fw)
                     # the new incarnation subscribes to the order stream and receives the initial image
                     self.exchange.ocm.clear()
+                    self.exchange.ocm_ready.clear()
                     self.exchange.image(include_complete=sc.get("image_with_complete", True))
                 first = False
                 self.hooks.setdefault("main_event", [])
                 if self._track_update not in self.hooks["main_event"]:
                     self.hooks["main_event"].insert(0, self._track_update)
+                if sc.get("main_yield_pct") and self._main_yield_before_request not in self.hooks.setdefault("request_before", []):
+                    self.hooks["request_before"].insert(0, self._main_yield_before_request)
                 try:
                     self.main_thread = threading.current_thread()
                     self.fw.run()
@@ -1400,6 +1408,28 @@ class LiveRun:
                 pass
             res.digest = core.digest((self.log, rows, sorted((k, sorted(v.items())) for k, v in self.exchange.bets.items())))
         return res
+
+    def _main_yield_before_request(self, kind, txn, order, a, k):
+        """Pre-emption of the main loop inside a handler (scenario knob main_yield_pct): right before a strategy's request is
+        validated, pool threads that are ready may run - e.g. apply a reply - so that two requests of one callback (or of
+        one transaction) see different states. Decided by the scenario's tape."""
+        pct = self.scenario.get("main_yield_pct", 0)
+        if not pct or self.current_task is not None or self.aborting or threading.current_thread() is not self.main_thread:
+            return
+        self.n_main_yields = getattr(self, "n_main_yields", 0) + 1
+        kk = self.tape[(self.n_main_yields * 11 + 7) % len(self.tape)] if self.tape else 0
+        if kk % 100 >= pct:
+            return
+        ready = [t for t in self.tasks if t.state != "done"]
+        if not ready:
+            return
+        t = ready[(kk // 100) % len(ready)]
+        self.res.faults["schedule.pool_thread_runs_between_two_requests_of_a_handler"] += 1
+        self.log.append(("main-yield", self.n_main_yields))
+        n = 0
+        while t.state != "done" and n < 3 and t in self.tasks:
+            self.resume(t)
+            n += 1
 
     def _track_update(self, ev):
         # bookkeeping for agents / monitors: which abstract update does this MarketBookEvent carry
